@@ -241,6 +241,7 @@ fn get_swap_transactions<C: ContentAddrStore>(state: &UnsealedState<C>) -> Vec<T
         .filter_map(|tx| {
             (tx.kind == TxKind::Swap).then_some(())?; // ensure that this is a swap request at all
             (!tx.outputs.is_empty()).then_some(())?; // ensure not empty
+            (tx.outputs[0].value.0 > 0).then_some(())?; // a zero-valued request has no share to compute (0/0 when it is alone on its side)
             state.coins.get_coin(tx.output_coinid(0))?; // ensure that first output is unspent
             let pool_key = named_pool_key(&tx.data)?; // ensure that data contains a pool key
             state.pools.get(&pool_key)?; // ensure that pool key points to a valid pool
@@ -361,6 +362,9 @@ fn get_deposit_transactions<C: ContentAddrStore>(state: &UnsealedState<C>) -> Ve
         .filter_map(|tx| {
             (tx.kind == TxKind::LiqDeposit
                 && tx.outputs.len() >= 2
+                // both sides must be non-zero: a share is proportional to sqrt(left) * sqrt(right)
+                && tx.outputs[0].value.0 > 0
+                && tx.outputs[1].value.0 > 0
                 && state.coins.get_coin(tx.output_coinid(0)).is_some()
                 && state.coins.get_coin(tx.output_coinid(1)).is_some())
             .then_some(())?;
@@ -397,6 +401,10 @@ fn process_withdrawals_for_single_pool<C: ContentAddrStore>(
         .fold(0u128, |a, b| a.saturating_add(b));
     // get the state
     let mut pool_state = state.pools.get(pool).unwrap();
+    if total_liqs > pool_state.liqs {
+        // more liquidity tokens than the pool ever issued cannot be redeemed; the requests are left as they are
+        return;
+    }
     let (total_left, total_write) = pool_state.withdraw(total_liqs);
     state.pools.insert(*pool, pool_state);
     // divvy up the lefts and rights
@@ -443,6 +451,7 @@ fn get_withdrawal_transactions<C: ContentAddrStore>(state: &UnsealedState<C>) ->
         .filter_map(|tx| {
             (tx.kind == TxKind::LiqWithdraw
                 && tx.outputs.len() == 1
+                && tx.outputs[0].value.0 > 0
                 && state.coins.get_coin(tx.output_coinid(0)).is_some())
             .then_some(())?;
             let pool_key = named_pool_key(&tx.data)?;
